@@ -23,7 +23,9 @@ SHAPES_QUICK = [([2], 'csv'), ([0], 'csv'), ([2, 1], 'csv'), ([1, 0, 2], 'csv'),
                 # configurations of the dump itself: the per-resource hash switched off (only the size is recorded, and it must still be the
                 # size of the complete file); a package that was dumped before, loaded and is dumped again (its resources arrive with
                 # bytes / hash of their own, which must be replaced, not added to)
-                ([2, 1], 'csv', 'nohash'), ([1, 2], 'json', 'nohash'), ([2, 1], 'csv', 'redump'), ([0, 2], 'csv', 'redump')]
+                ([2, 1], 'csv', 'nohash'), ([1, 2], 'json', 'nohash'), ([2, 1], 'csv', 'redump'), ([0, 2], 'csv', 'redump'),
+                # add_filehash_to_path with resources whose files are byte-identical (same hash directory, different names)
+                ([2, 2], 'csv', 'filehash_same'), ([0, 0, 1], 'json', 'filehash_same')]
 SHAPES_THOROUGH = SHAPES_QUICK + [([3, 3, 3], 'csv'), ([3, 3, 3], 'json'), ([0, 0], 'csv'), ([5], 'json'), ([1], 'csv'), ([1], 'json'),
                                   ([3, 0, 3], 'csv', 'nohash'), ([3, 3], 'csv', 'redump'), ([2000], 'csv', 'nohash')]
 
@@ -40,9 +42,13 @@ def build(shape, fmt, out, variant='default', pre=None):
     if variant == 'redump':
         return Flow(load(os.path.join(pre, 'datapackage.json')), dump_to_path(out, format=fmt))
     srcs = [[dict(r=r, k=k, v='val-%d-%d' % (r, k)) for k in range(1, n + 1)] for r, n in enumerate(shape, start=1)]
+    if variant == 'filehash_same':
+        srcs = [[dict(r=0, k=k, v='val-%d' % k) for k in range(1, n + 1)] for n in shape]
     # an empty list has no inferable schema: give it a declared one
     from ..common import tuple_source
     src = tuple_source([('res%d' % (i + 1), [('r', 'integer'), ('k', 'integer'), ('v', 'string')], rows) for i, rows in enumerate(srcs)])
+    if variant == 'filehash_same':
+        return Flow(src, dump_to_path(out, format=fmt, add_filehash_to_path=True))
     if variant == 'nohash':
         return Flow(src, dump_to_path(out, format=fmt, counters={'resource-hash': None, 'datapackage-hash': None}))
     return Flow(src, dump_to_path(out, format=fmt))
@@ -102,6 +108,10 @@ def crash_case(item):
         ref_ops = fsrec.read_log(reflog)
         d = json.load(open(os.path.join(refdir, 'datapackage.json')))
         paths = [r['path'] for r in d['resources']]
+        missing = [p for p in paths if not os.path.exists(os.path.join(refdir, p))]
+        if missing:
+            # the UNINTERRUPTED dump already ends with a descriptor that lists files which are not there: C19 fails without any kill
+            return dict(ref_violation='the complete dump lists data files that do not exist: %s' % missing, nops=len(ref_ops), representative=[])
         refinfo = dict(paths=paths, files={p: open(os.path.join(refdir, p), 'rb').read() for p in paths})
         if item['kind'] == 'count':
             # consecutive writes into the same temp file are one equivalence class for the output directory
@@ -169,6 +179,11 @@ def run():
     items = []
     total_ops = 0
     for (s, f, v_), c in zip(shapes, counts):
+        if c.get('ref_violation'):
+            rep.count(1, traces=1)
+            rep.violation(dict(shape=s, fmt=f, variant=v_, kind='kill_before', k=10 ** 6), dict(dump=dict(shape=s, format=f, variant=v_), why=c['ref_violation']),
+                          category='%s/complete-dump-lists-missing-files' % f)
+            continue
         total_ops += c['nops']
         ks = c['representative'] if t == 'quick' else range(1, c['nops'] + 1)
         for k in ks:
@@ -217,6 +232,10 @@ def replay(path):
     setup_repo()
     rec = json.load(open(path))
     tr = crash_case(rec['case'])
+    if tr.get('ref_violation'):
+        print(tr['ref_violation'])
+        print('VIOLATION property=%s replay=%s' % (PROP, path))
+        return 1
     rep = Report(PROP)
     v = validate(rep, [tr])[0]
     print(v, tr['post'])
